@@ -97,7 +97,7 @@ def _loops(func: ast.AST):
     return out
 
 
-def check_cursor_loops(ctx: Ctx, rule: str, con: str, func: ast.AST, *, min_loops: int = 1, only: set[str] | None = None) -> int:
+def check_cursor_loops(ctx: Ctx, rule: str, con: str, func: ast.AST, *, min_loops: int = 1, only: set[str] | None = None, force: set[str] | None = None) -> int:
     cfg = cfg_of(func)
     n_cursors = 0
     all_cursor_names: set[str] = set()
@@ -127,6 +127,8 @@ def check_cursor_loops(ctx: Ctx, rule: str, con: str, func: ast.AST, *, min_loop
             )
             copies = [s for s in direct if isinstance(s, ast.Assign) and isinstance(s.value, ast.Name) and s.value.id == c and all(isinstance(t, ast.Name) for t in s.targets)]
             partners = {t.id for s in copies for t in s.targets}
+            if c in (force or ()):
+                used_as_bound = True
             if not used_as_bound and not any(
                 isinstance(n, ast.Slice) and names_in(n) & partners or (isinstance(n, ast.Call) and getattr(n.func, "id", None) in ("slice", "range", "arange") and names_in(n) & partners) for n in ast.walk(func)
             ):
